@@ -216,3 +216,10 @@ CASES += [
     {"name": "requested temperature written with update()", "kind": "twin", "edits": [
         (_SD9, "            if temperature is not None:\n                prms[\"T\"] = temperature\n", "            if temperature is not None:\n                prms.update({\"T\": temperature})\n", 1)]},
 ]
+
+_CF9N = "quantarhei/qm/corfunctions/correlationfunctions.py"
+CASES += [
+    {"name": "odd Fourier part accepts components at any temperatures (the repaired defect)", "kind": "mutant", "rule": "C09-N", "edits": [
+        (_CF9N, "            elif cfce.temperature != temp0:\n                raise Exception(\"Inconsistent temperature! \"\n                                +\"Temperatures of all \"\n                                +\"components have to be the same\")\n\n            cfce.data = 1j*numpy.imag(cfce.data)\n",
+                "            elif cfce.temperature != temp0:\n                pass\n\n            cfce.data = 1j*numpy.imag(cfce.data)\n", 1)]},
+]
